@@ -1,13 +1,83 @@
 import Driver.Common
 import Sourmash.Model.Scaled
-/-! C14 driver: exact binary64 model of the scaled <-> max_hash conversions. -/
+import Sourmash.Model.Select
+/-! C14 driver: exact binary64 model of the scaled <-> max_hash conversions.
+
+Stream 3 (`mrow` / `msel` / `mcsel` / `mload`): manifests and selection as consumers of the reported
+value.  Model column = `Record::from_sig`, `Manifest::select`, `Collection::select`,
+`sig_from_record` + `Signature::select` of `Model/Select.lean` over sketches whose ceiling is
+`maxHashForScaled s`; spec column = the property's last sentence, stated on the values the rows were
+*created* with: a row is retained iff it has the requested ksize / num and 0 < created ≤ requested,
+and what is loaded from a retained row reports the requested value. -/
 open Driver Scaled
 
 def pow31 : Nat := 2147483648
 
-def stepC14 (s : Unit) (ws : List String) : Unit × Resp :=
+/-- rows of the case: (ksize, scaled it was created with, num) -/
+abbrev St := List (Nat × Nat × Nat)
+
+def optNat (w : String) : Option Nat := if w == "-" then none else some w.toNat!
+
+def rowSketch (r : Nat × Nat × Nat) : Select.Sketch := Select.Sketch.new r.2.1 r.1 .dna 42 false r.2.2 .vec
+
+def rowName (i : Nat) : Select.Bytes := 114 :: Select.natBytes i
+
+def rowSig (p : (Nat × Nat × Nat) × Nat) : Select.Sig :=
+  { name := some (rowName p.2), filename := none, sketches := [rowSketch p.1] }
+
+/-- the row a record belongs to, by its name `r<i>` -/
+def rowId (n : Nat) (r : Select.Record) : String :=
+  match (List.range n).find? (fun i => rowName i == r.name) with
+  | some i => toString i
+  | none => "?"
+
+def manifestOps (st : St) (op k n sc : String) : Resp :=
+  let sel : Select.Selection := { ksize := optNat k, num := optNat n, scaled := optNat sc }
+  let sigs := st.zipIdx.map rowSig
+  -- spec: on the created values
+  let ok (r : Nat × Nat × Nat) : Bool :=
+    (match sel.ksize with | some k => r.1 == k | none => true) &&
+    (match sel.num with | some n => r.2.2 == n | none => true) &&
+    (match sel.scaled with | some q => decide (0 < r.2.1 ∧ r.2.1 ≤ q) | none => true)
+  let inRange := st.all (fun r => decide (r.2.1 ≤ pow31)) &&
+    (match sel.scaled with | some q => decide (q ≤ pow31) | none => true)
+  let kept := (st.zipIdx.filter (fun p => ok p.1))
+  match Select.Collection.fromSigs (fun _ => []) sigs with
+  | none => { model := "PANIC" }
+  | some c =>
+    if op == "msel" || op == "mcsel" then
+      let rows := if op == "msel" then Select.manifestSelect sel c.manifest else (c.select sel).manifest
+      { model := showNats (rows.map (fun r => (rowId st.length r).toNat!)),
+        spec := if inRange then showNats (kept.map (·.2)) else "-" }
+    else
+      let c' := c.select sel
+      let one (r : Select.Record) : String :=
+        rowId st.length r ++ ":" ++
+        (match c'.sigFromRecord r with
+         | none => "PANIC"
+         | some (.error _) => "err"
+         | some (.ok sg) =>
+           match Select.sigStoreSelect sel sg with
+           | .error _ => "err"
+           | .ok sg' => match sg'.sketches with
+             | s :: _ => toString s.scaled
+             | [] => "none")
+      let outs := c'.manifest.map one
+      let want := kept.map (fun p => toString p.2 ++ ":" ++
+        toString (match sel.scaled with | some q => q | none => p.1.2.1))
+      { model := if outs.isEmpty then "-" else ",".intercalate outs,
+        spec := if inRange then (if want.isEmpty then "-" else ",".intercalate want) else "-" }
+
+def stepC14 (s : St) (ws : List String) : St × Resp :=
   match ws with
-  | "case" :: _ => (s, { model := "ok" })
+  | "case" :: _ => ([], { model := "ok" })
+  | ["mrow", k, sc, n] =>
+    let sc := sc.toNat!
+    (s ++ [(k.toNat!, sc, n.toNat!)],
+     { model := toString (scaledForMaxHash (maxHashForScaled sc)), spec := if sc ≤ pow31 then toString sc else "-" })
+  | ["msel", k, n, sc] => (s, manifestOps s "msel" k n sc)
+  | ["mcsel", k, n, sc] => (s, manifestOps s "mcsel" k n sc)
+  | ["mload", k, n, sc] => (s, manifestOps s "mload" k n sc)
   | ["mh", n] =>
     let n := n.toNat!
     (s, { model := toString (maxHashForScaled n),
@@ -52,4 +122,4 @@ def stepC14 (s : Unit) (ws : List String) : Unit × Resp :=
     else (s, { model := "bad-op" })
   | _ => (s, { model := "bad-op" })
 
-def main : IO Unit := Driver.run () stepC14
+def main : IO Unit := Driver.run ([] : St) stepC14
